@@ -111,6 +111,35 @@ CHECKS = {
         note="The HTML5 tokenizer (golang.org/x/net/html) is the oracle and trusted base; the specification contributes the "
              "enumeration and the guard (said in DESIGN 5).",
         ref="DESIGN.md 4 C18"),
+    "C06": dict(
+        module="KMGate",
+        technique="TLA+ route-policy model (TLC) + TLC-enumerated probes (operation x credential x method x origin) on the "
+                  "real service mux with observed effects + TLC trace monitor; default-deny probes of routes extracted from main()",
+        text="KMGate carries the policy table (which credential kinds each operation accepts, whether it changes state, "
+             "what acting on another user needs); TLC checks a reference gate against the guards and the headline clauses, "
+             "and enumerates 13.5k probes. Each probe runs against the real mux built from the route registrations copied "
+             "verbatim out of main(); the protected effects are observed, not assumed (database digest, second-factor "
+             "transaction maps, certificates / tokens verifying under the server keys, canary token names, admitted "
+             "identity from the access-log record) and the TLC monitor evaluates needs-valid, kind-accepted, same-site, "
+             "identity and only-own-effect guards plus non-vacuity (the legitimate request must cause its effect). "
+             "Routes present in the source but not in the table are probed default-deny.",
+        note="Credential shapes are the 35 listed in the spec (cookies at 6 levels for 3 roles, forged/expired/wrong-kind "
+             "cookies, basic auth, keymaster certificates incl. deny-listed and admin-CA ones, IP certificates inside/outside). "
+             "VIP is a fake service.",
+        ref="DESIGN.md 4 C06"),
+    "C08": dict(
+        module="KMGate",
+        technique="TLA+ role/target model (TLC) + the same TLC-enumerated probes, judged by the C08 guards (self / admin / "
+                  "admin+U2F / automation admin / automation identity) in the TLC trace monitor",
+        text="For every (actor role: plain, admin, automation admin; session level; target self/other; operation; method) "
+             "probe the monitor requires: an effect on another user's profile/tokens only for an administrator, changing or "
+             "registering another user's tokens only with a hardware-token factor in the administrator's own session, "
+             "listing/adding/deleting users and issuing bootstrap OTPs only for administrators, automation certificates "
+             "only by (automation) administrators and only for configured automation identities; effects are observed on "
+             "the stored profiles of actor and target.",
+        note="Admin by configured name; the five-minute re-evaluation of group-based admin verdicts (directory-backed) is "
+             "not driven yet - named here as the unbound clause.",
+        ref="DESIGN.md 4 C08"),
 }
 PENDING_REASON = "check not built yet in this session (specification module planned in DESIGN.md section 4); not claimed until its check runs clean on the unchanged tree"
 ALL = ["C%02d" % i for i in range(1, 21)]
